@@ -71,10 +71,15 @@ def run_extract():
 _ERR = re.compile(r"^error: (\S+?\.lean):(\d+):(\d+): (.*)$")
 
 
-def lake_build(targets, timeout=1500):
+def lake_build(targets, timeout=900):
     """-> (ok, errors) with errors = list of dict(file, line, msg)"""
-    p = subprocess.run(["lake", "build", *targets], cwd=LEAN, capture_output=True, text=True,
-                       timeout=timeout)
+    try:
+        p = subprocess.run(["lake", "build", *targets], cwd=LEAN, capture_output=True, text=True,
+                           timeout=timeout)
+    except subprocess.TimeoutExpired:
+        subprocess.run(["pkill", "-x", "lean"], capture_output=True)
+        return False, [{"file": "?", "line": 0, "msg": "lake build of %s did not finish within %d s "
+                        "(a proof obligation no longer checks in reasonable time)" % (targets[0], timeout)}]
     errors = []
     for line in (p.stdout + "\n" + p.stderr).splitlines():
         m = _ERR.match(line)
